@@ -134,10 +134,26 @@ public:
         if (m_blocks.empty() == true ||
             m_blocks.back()->blockAvailable() == false)
         {
-            m_blocks.push_back(
+            ArenaBlockType* const   theNewBlock =
                 ArenaBlockType::create(
                     getMemoryManager(),
-                    m_blockSize));
+                    m_blockSize);
+
+            try
+            {
+                m_blocks.push_back(theNewBlock);
+            }
+            catch(...)
+            {
+                // The list could not allocate a node for the new
+                // block, so nothing refers to it: destroy it,
+                // instead of losing it and its storage.
+                XalanDestroy(
+                    getMemoryManager(),
+                    theNewBlock);
+
+                throw;
+            }
         }
         assert(
             m_blocks.empty() == false &&
